@@ -16,6 +16,7 @@ import Mathlib.Tactic.Ring
 import Mathlib.Tactic.FieldSimp
 import Mathlib.Tactic.LinearCombination
 import Mathlib.Tactic.SplitIfs
+import Mathlib.LinearAlgebra.Matrix.Determinant.Basic
 set_option linter.unusedSectionVars false
 set_option linter.unusedVariables false
 set_option linter.unusedSimpArgs false
@@ -87,9 +88,17 @@ theorem getD_setIfInBounds {α} [Zero α] (u : Array α) (j i : Nat) (v : α) (h
   · have h' : ¬ j = i := fun e => h e.symm
     simp [Array.getElem?_setIfInBounds, h, h']
 
-theorem getElem?_eq_some_getD {α} [Zero α] {a : Array α} {i : Nat} (h : i < a.size) :
-    a[i]? = some (a[i]?.getD 0) := by
-  simp [h]
+theorem aget_push_lt {α} [Zero α] (a : Array α) (x : α) {j : Nat} (h : j < a.size) :
+    aget (a.push x) j = .ok (a[j]?.getD 0) := by
+  have h' : j < (a.push x).size := by simp; omega
+  rw [aget_getD h']
+  simp [Array.getElem?_push, h, Nat.ne_of_lt h]
+
+theorem aget_singleton_append_succ {α} [Zero α] (a : Array α) (x : α) {j : Nat} (h : j < a.size) :
+    aget (#[x] ++ a) (j + 1) = .ok (a[j]?.getD 0) := by
+  have h' : j + 1 < (#[x] ++ a).size := by simp; omega
+  rw [aget_getD h']
+  simp [Array.getElem?_append, h]
 
 /-! ### dense twin of three diagonals -/
 
@@ -110,9 +119,11 @@ theorem triEntry_mul (a b c x : Nat → K) (i j : Nat) :
   by_cases h1 : i = j
   · subst h1; simp
   · by_cases h2 : i = j + 1
-    · subst h2; simp
+    · subst h2
+      have : ¬ j + 1 + 1 = j := by omega
+      simp [this]
     · by_cases h3 : i + 1 = j
-      · subst h3; simp
+      · subst h3; simp [h1, h2]
       · simp [h1, h2, h3]
 
 /-- a row of the dense twin times a vector is the three-term band sum -/
@@ -135,7 +146,7 @@ theorem triEntry_row_sum (a b c x : Nat → K) (n i : Nat) (hi : i < n) :
   rw [hsub]
   have h1 : i ∈ range n := by simpa using hi
   simp only [h1, if_true, mem_range]
-  ring
+  rw [add_comm (b i * x i)]
 end RowSum
 
 /-! ### Thomas recurrences -/
@@ -204,5 +215,83 @@ theorem thomas_row (a b c r x : Nat → K) (n : Nat)
       simp only [Nat.succ_pos, if_true, hn, if_false, Nat.add_sub_cancel, add_zero]
       linear_combination (a k) * hxk + hy - (x (k + 1)) * hb + (thBeta a b c (k + 1)) * hlast
 end Thomas
+
+/-! ### determinant of the dense twin -/
+section Det
+variable {K : Type} [CommRing K]
+
+/-- the dense twin as a Mathlib matrix -/
+def triMatrix (a b c : Nat → K) (n : Nat) : Matrix (Fin n) (Fin n) K :=
+  Matrix.of fun i j => triEntry a b c i.val j.val
+
+/-- the three-term recurrence `f₀ = 1, f₁ = b₀, fₖ₊₂ = bₖ₊₁ fₖ₊₁ − aₖ cₖ fₖ` -/
+def triDet (a b c : Nat → K) : Nat → K
+  | 0 => 1
+  | 1 => b 0
+  | k + 2 => b (k + 1) * triDet a b c (k + 1) - a k * c k * triDet a b c k
+
+/-- Laplace expansion along the last row, then along the last column of the off-diagonal minor -/
+theorem triMatrix_det_succ_succ (a b c : Nat → K) (k : Nat) :
+    (triMatrix a b c (k + 2)).det =
+      b (k + 1) * (triMatrix a b c (k + 1)).det - a k * c k * (triMatrix a b c k).det := by
+  -- entries of the last row
+  have h0 : ∀ i : Fin k, triMatrix a b c (k + 2) (Fin.last (k + 1)) i.castSucc.castSucc = 0 := by
+    intro i
+    have := i.isLt
+    have e1 : ¬ k + 1 = i.val := by omega
+    have e2 : ¬ k = i.val := by omega
+    have e3 : ¬ k + 1 + 1 = i.val := by omega
+    simp [triMatrix, triEntry, e1, e2, e3]
+  have h1 : triMatrix a b c (k + 2) (Fin.last (k + 1)) (Fin.last k).castSucc = a k := by
+    simp [triMatrix, triEntry]
+  have h2 : triMatrix a b c (k + 2) (Fin.last (k + 1)) (Fin.last (k + 1)) = b (k + 1) := by
+    simp [triMatrix, triEntry]
+  have hA : (triMatrix a b c (k + 2)).submatrix (Fin.last (k + 1)).succAbove
+      (Fin.last (k + 1)).succAbove = triMatrix a b c (k + 1) := by
+    ext i j
+    simp [triMatrix, Fin.succAbove_last]
+  -- the other minor: expand along its last column
+  have hN : ((triMatrix a b c (k + 2)).submatrix (Fin.last (k + 1)).succAbove
+      (Fin.last k).castSucc.succAbove).det = c k * (triMatrix a b c k).det := by
+    rw [Matrix.det_succ_column _ (Fin.last k), Fin.sum_univ_castSucc]
+    have g0 : ∀ i : Fin k, (triMatrix a b c (k + 2)).submatrix (Fin.last (k + 1)).succAbove
+        (Fin.last k).castSucc.succAbove i.castSucc (Fin.last k) = 0 := by
+      intro i
+      have := i.isLt
+      have e1 : ¬ i.val = k + 1 := by omega
+      have e2 : ¬ i.val = k + 1 + 1 := by omega
+      have e3 : ¬ i.val + 1 = k + 1 := by omega
+      simp [triMatrix, triEntry, Fin.succAbove_last, e1, e2]
+      intro h; omega
+    have g1 : (triMatrix a b c (k + 2)).submatrix (Fin.last (k + 1)).succAbove
+        (Fin.last k).castSucc.succAbove (Fin.last k) (Fin.last k) = c k := by
+      simp [triMatrix, triEntry, Fin.succAbove_last]
+      intro h; omega
+    have gA : ((triMatrix a b c (k + 2)).submatrix (Fin.last (k + 1)).succAbove
+        (Fin.last k).castSucc.succAbove).submatrix (Fin.last k).succAbove (Fin.last k).succAbove
+        = triMatrix a b c k := by
+      ext i j
+      simp [triMatrix, Fin.succAbove_last]
+    rw [Finset.sum_eq_zero (fun i _ => by rw [g0 i]; simp), g1, gA]
+    have : (-1 : K) ^ ((Fin.last k : Fin (k + 1)).val + (Fin.last k : Fin (k + 1)).val) = 1 :=
+      Even.neg_one_pow ⟨_, rfl⟩
+    rw [this]; ring
+  rw [Matrix.det_succ_row _ (Fin.last (k + 1))]
+  rw [Fin.sum_univ_castSucc, Fin.sum_univ_castSucc]
+  rw [Finset.sum_eq_zero (fun i _ => by rw [h0 i]; simp), h1, h2, hA, hN]
+  have s1 : (-1 : K) ^ ((Fin.last (k + 1) : Fin (k + 2)).val + (Fin.last (k + 1) : Fin (k + 2)).val) = 1 :=
+    Even.neg_one_pow ⟨_, rfl⟩
+  have s2 : (-1 : K) ^ ((Fin.last (k + 1) : Fin (k + 2)).val + ((Fin.last k).castSucc : Fin (k + 2)).val) = -1 := by
+    apply Odd.neg_one_pow
+    exact ⟨k, by simp; omega⟩
+  rw [s1, s2]; ring
+
+theorem triMatrix_det (a b c : Nat → K) : ∀ n, (triMatrix a b c n).det = triDet a b c n
+  | 0 => by simp [triDet]
+  | 1 => by simp [triDet, triMatrix, triEntry]
+  | k + 2 => by
+    rw [triMatrix_det_succ_succ, triMatrix_det a b c (k + 1), triMatrix_det a b c k]
+    rfl
+end Det
 
 end Ohsl
